@@ -258,11 +258,11 @@ theorem concatOpt_cons_some {a : Option (List Ins)} {rest : List (Option (List I
     obtain ⟨cr, h1, h2⟩ := h
     exact ⟨ca, cr, rfl, h1, h2.symm⟩
 
-theorem compile_try_inv {cf d : Nat} {b : E} {cs : List Catch} {fin : Option E} {c : List Ins}
-    (h : compile (cf + 1) d (.try_ b cs fin) = some c) :
-    ∃ bc cc fc, compile cf (d + 1) b = some bc ∧
-      compileCatches (compile cf (d + 1)) (100 + d) cs = some cc ∧
-      (match fin with | some f => compile cf d f | none => some []) = some fc ∧
+theorem compile_try_inv {cf d op : Nat} {b : E} {cs : List Catch} {fin : Option E} {c : List Ins}
+    (h : compile (cf + 1) d op (.try_ b cs fin) = some c) :
+    ∃ bc cc fc, compile cf (d + 1) (op + 1) b = some bc ∧
+      compileCatches (compile cf (d + 1) op) (100 + d) cs = some cc ∧
+      (match fin with | some f => compile cf d op f | none => some []) = some fc ∧
       c = .tryStart (100 + d) (bc.length + 2) :: bc ++ [.tryEnd, .jumpFwd (1 + cc.length)] ++ [.tryEnd] ++ cc ++ fc := by
   cases fin with
   | none =>
@@ -307,18 +307,18 @@ theorem sim_out_eq {code : Code} {sig : Sig} {σa σb σ' : St} {f g : Frame} {r
     Sim code sig σb σ' f rest o e g := by
   cases sig <;> simp_all [Sim]
 
-theorem compile_zero (d : Nat) (e : E) : compile 0 d e = none := by
+theorem compile_zero (d op : Nat) (e : E) : compile 0 d op e = none := by
   simp [compile]
 
 /-- code: `copy x reg; <body>; jumpFwd rl` (a non-last catch block) or `copy x reg; <body>` (the last) -/
 theorem sim_catch_block {code : Code} {P : Prog} {n : Nat}
-    (ih : ∀ e σ sig σ' cf depth c f rest o, Frag e → run guide P n (.ev e) σ = (sig, σ') →
-      compile cf depth e = some c → CodeAt code f.fn f.ip c →
+    (ih : ∀ e σ sig σ' cf depth op c f rest o, Frag e → run guide P n (.ev e) σ = (sig, σ') →
+      compile cf depth op e = some c → CodeAt code f.fn f.ip c →
       Sim code sig σ σ' f rest o (f.ip + c.length) f)
-    {body : E} {σ σ' : St} {sig : Sig} {cf depth : Nat} {b tail : List Ins} {f : Frame}
+    {body : E} {σ σ' : St} {sig : Sig} {cf depth op : Nat} {b tail : List Ins} {f : Frame}
     {rest : List Frame} {o : List Nat} {x reg : Nat} {v : Val} {endIp : Nat}
     (hb : Frag body) (hrun : run guide P n (.ev body) (setLocal σ x v) = (sig, σ'))
-    (hc : compile cf depth body = some b)
+    (hc : compile cf depth op body = some b)
     (hcode : CodeAt code f.fn f.ip (.copy x reg :: b ++ tail))
     (htail : (tail = [] ∧ endIp = f.ip + 1 + b.length) ∨
              (∃ rl, tail = [.jumpFwd rl] ∧ endIp = f.ip + 1 + b.length + 1 + rl)) :
@@ -328,7 +328,7 @@ theorem sim_catch_block {code : Code} {P : Prog} {n : Nat}
   let f1 : Frame := { f with ip := f.ip + 1, regs := (x, regGet f.regs reg) :: f.regs }
   have h1 : steps code 1 (mk f rest o) = mk f1 rest o := by rw [steps_one, step_copy hcopy]
   have hsame : SameCtl f f1 := ⟨rfl, rfl, rfl, rfl⟩
-  have hb' := ih body (setLocal σ x v) sig σ' cf depth b f1 rest o hb hrun hc (codeAt_append_left hrest)
+  have hb' := ih body (setLocal σ x v) sig σ' cf depth op b f1 rest o hb hrun hc (codeAt_append_left hrest)
   have hb'' : Sim code sig σ σ' f1 rest o (f1.ip + b.length) f1 := sim_out_eq (by rfl) hb'
   apply sim_prefix0 h1
   apply sim_ref hsame
@@ -354,37 +354,37 @@ theorem sim_catch_block {code : Code} {P : Prog} {n : Nat}
 
 
 def SimEv (code : Code) (P : Prog) (n : Nat) : Prop :=
-  ∀ e σ sig σ' cf depth c f rest o, Frag e → run guide P n (.ev e) σ = (sig, σ') →
-    compile cf depth e = some c → CodeAt code f.fn f.ip c →
+  ∀ e σ sig σ' cf depth op c f rest o, Frag e → run guide P n (.ev e) σ = (sig, σ') →
+    compile cf depth op e = some c → CodeAt code f.fn f.ip c →
     Sim code sig σ σ' f rest o (f.ip + c.length) f
 
 def SimSeq (code : Code) (P : Prog) (n : Nat) : Prop :=
-  ∀ es last σ sig σ' cf depth c f rest o, (∀ e ∈ es, Frag e) →
+  ∀ es last σ sig σ' cf depth op c f rest o, (∀ e ∈ es, Frag e) →
     run guide P n (.seq es last) σ = (sig, σ') →
-    concatOpt (es.map (compile cf depth)) = some c → CodeAt code f.fn f.ip c →
+    concatOpt (es.map (compile cf depth op)) = some c → CodeAt code f.fn f.ip c →
     Sim code sig σ σ' f rest o (f.ip + c.length) f
 
 def SimCatches (code : Code) (P : Prog) (n : Nat) : Prop :=
-  ∀ cs v σ sig σ' cf depth reg cc f rest o, (∀ c ∈ cs, Frag c.2.2) → LastUntyped cs →
+  ∀ cs v σ sig σ' cf depth op reg cc f rest o, (∀ c ∈ cs, Frag c.2.2) → LastUntyped cs →
     run guide P n (.catches cs v) σ = (sig, σ') →
-    compileCatches (compile cf depth) reg cs = some cc → CodeAt code f.fn f.ip cc →
+    compileCatches (compile cf depth op) reg cs = some cc → CodeAt code f.fn f.ip cc →
     regGet f.regs reg = v →
     Sim code sig σ σ' f rest o (f.ip + cc.length) f
 
 theorem sim_zero_ev (code : Code) (P : Prog) : SimEv code P 0 := by
-  intro e σ sig σ' cf depth c f rest o _ h _ _
+  intro e σ sig σ' cf depth op c f rest o _ h _ _
   simp [run] at h; rw [← h.1]; trivial
 theorem sim_zero_seq (code : Code) (P : Prog) : SimSeq code P 0 := by
-  intro es last σ sig σ' cf depth c f rest o _ h _ _
+  intro es last σ sig σ' cf depth op c f rest o _ h _ _
   simp [run] at h; rw [← h.1]; trivial
 theorem sim_zero_catches (code : Code) (P : Prog) : SimCatches code P 0 := by
-  intro cs v σ sig σ' cf depth reg cc f rest o _ _ h _ _ _
+  intro cs v σ sig σ' cf depth op reg cc f rest o _ _ h _ _ _
   simp [run] at h; rw [← h.1]; trivial
 
 /-- catch chain, one more unit of fuel -/
 theorem sim_succ_catches (code : Code) (P : Prog) (n : Nat) (ihE : SimEv code P n)
     (ihC : SimCatches code P n) : SimCatches code P (n + 1) := by
-  intro cs v σ sig σ' cf depth reg cc f rest o hcs hl h hcc hcode hreg
+  intro cs v σ sig σ' cf depth op reg cc f rest o hcs hl h hcc hcode hreg
   match cs, hl with
   | [(ty, x, body)], hl =>
     simp [LastUntyped] at hl
@@ -442,7 +442,7 @@ theorem sim_succ_catches (code : Code) (P : Prog) (n : Nat) (ihE : SimEv code P 
           exact this
         apply sim_prefix0 h1
         apply sim_ref (g := f1) ⟨rfl, rfl, rfl, rfl⟩
-        have := ihC (c2 :: rest2) v σ sig σ' cf depth reg r f1 rest o
+        have := ihC (c2 :: rest2) v σ sig σ' cf depth op reg r f1 rest o
           (fun c hc => hcs c (by simp [hc])) hl' h hr hcode1 hreg
         have e : f1.ip + r.length = f.ip + (([Ins.checkType reg t (b.length + 2)] ++
             (Ins.copy x reg :: b ++ [Ins.jumpFwd r.length])) ++ r).length := by simp [f1]; omega
@@ -451,7 +451,7 @@ theorem sim_succ_catches (code : Code) (P : Prog) (n : Nat) (ihE : SimEv code P 
 
 theorem sim_succ_seq (code : Code) (P : Prog) (n : Nat) (ihE : SimEv code P n)
     (ihS : SimSeq code P n) : SimSeq code P (n + 1) := by
-  intro es last σ sig σ' cf depth c f rest o hes h hc hcode
+  intro es last σ sig σ' cf depth op c f rest o hes h hc hcode
   cases es with
   | nil =>
     simp [run] at h
@@ -465,7 +465,7 @@ theorem sim_succ_seq (code : Code) (P : Prog) (n : Nat) (ihE : SimEv code P n)
     simp only [run] at h
     cases he : run guide P n (.ev e) σ with
     | mk se σ1 =>
-      have h1 := ihE e σ se σ1 cf depth ca f rest o (hes e (by simp)) he hca (codeAt_append_left hcode)
+      have h1 := ihE e σ se σ1 cf depth op ca f rest o (hes e (by simp)) he hca (codeAt_append_left hcode)
       rw [he] at h
       cases se with
       | ok v =>
@@ -473,7 +473,7 @@ theorem sim_succ_seq (code : Code) (P : Prog) (n : Nat) (ihE : SimEv code P n)
         obtain ⟨k, f1, d, hk, hout, hctl, hip⟩ := h1
         have hcode1 : CodeAt code f1.fn f1.ip cr := by
           rw [hctl.1, hip]; exact codeAt_append_right hcode
-        have h2 := ihS rest' v σ1 sig σ' cf depth cr f1 (rest := rest) (o ++ tags d)
+        have h2 := ihS rest' v σ1 sig σ' cf depth op cr f1 (rest := rest) (o ++ tags d)
           (fun e he => hes e (by simp [he])) h hcr hcode1
         have e2 : f1.ip + cr.length = f.ip + (ca ++ cr).length := by simp [hip]; omega
         rw [e2] at h2
@@ -496,11 +496,11 @@ theorem sim_succ_seq (code : Code) (P : Prog) (n : Nat) (ihE : SimEv code P n)
 at the `finally` entry with the frame's control state restored, or raises past this try with the
 control state restored -/
 theorem sim_try_phase1 (code : Code) (P : Prog) (n : Nat) (ihE : SimEv code P n)
-    (ihC : SimCatches code P n) {b : E} {cs : List Catch} {σ : St} {cf depth : Nat}
+    (ihC : SimCatches code P n) {b : E} {cs : List Catch} {σ : St} {cf depth op : Nat}
     {bc cc tail : List Ins} {f : Frame} {rest : List Frame} {o : List Nat}
     (hb : Frag b) (hcs : ∀ c ∈ cs, Frag c.2.2) (hl : LastUntyped cs)
-    (hbc : compile cf (depth + 1) b = some bc)
-    (hcc : compileCatches (compile cf (depth + 1)) (100 + depth) cs = some cc)
+    (hbc : compile cf (depth + 1) (op + 1) b = some bc)
+    (hcc : compileCatches (compile cf (depth + 1) op) (100 + depth) cs = some cc)
     (hcode : CodeAt code f.fn f.ip
       (Ins.tryStart (100 + depth) (bc.length + 2) :: (bc ++ (Ins.tryEnd :: Ins.jumpFwd (1 + cc.length) ::
         Ins.tryEnd :: (cc ++ tail)))))
@@ -517,7 +517,7 @@ theorem sim_try_phase1 (code : Code) (P : Prog) (n : Nat) (ihE : SimEv code P n)
       (Ins.tryEnd :: Ins.jumpFwd (1 + cc.length) :: Ins.tryEnd :: (cc ++ tail)) := codeAt_append_right hrest
   cases hrb : run guide P n (.ev b) σ with
   | mk sb σb =>
-    have hB := ihE b σ sb σb cf (depth + 1) bc f1 rest o hb hrb hbc hcodeB
+    have hB := ihE b σ sb σb cf (depth + 1) (op + 1) bc f1 rest o hb hrb hbc hcodeB
     rw [hrb] at h
     apply sim_prefix0 h1
     cases sb with
@@ -562,7 +562,7 @@ theorem sim_try_phase1 (code : Code) (P : Prog) (n : Nat) (ihE : SimEv code P n)
         have := codeAt_append_left (codeAt_tail (codeAt_tail (codeAt_tail hafter)))
         rw [show f.ip + 1 + bc.length + 1 + 1 + 1 = f.ip + 1 + (bc.length + 2) + 1 by omega] at this
         exact this
-      have hC := ihC cs v σb s1 σ1 cf (depth + 1) (100 + depth) cc f3 rest (o ++ tags d) hcs hl h hcc hcodeC
+      have hC := ihC cs v σb s1 σ1 cf (depth + 1) op (100 + depth) cc f3 rest (o ++ tags d) hcs hl h hcc hcodeC
         (by simp [f3, f2', regGet])
       have hsame : SameCtl f f3 := by
         refine ⟨hctl.1, ?_, hctl.2.2.1, hctl.2.2.2⟩
@@ -590,7 +590,7 @@ theorem try_code_shape (reg : Nat) (bc cc fc : List Ins) :
 
 theorem sim_succ_ev (code : Code) (P : Prog) (n : Nat) (ihE : SimEv code P n)
     (ihS : SimSeq code P n) (ihC : SimCatches code P n) : SimEv code P (n + 1) := by
-  intro e σ sig σ' cf depth c f rest o he h hc hcode
+  intro e σ sig σ' cf depth op c f rest o he h hc hcode
   cases cf with
   | zero => simp [compile] at hc
   | succ cf =>
@@ -618,7 +618,7 @@ theorem sim_succ_ev (code : Code) (P : Prog) (n : Nat) (ihE : SimEv code P n)
   | seq es hes =>
     simp only [compile] at hc
     simp only [run] at h
-    exact ihS es .null σ sig σ' cf depth c f rest o hes h hc hcode
+    exact ihS es .null σ sig σ' cf depth op c f rest o hes h hc hcode
   | tryNoFin b cs hb hcs hl =>
     obtain ⟨bc, cc, fc, hbc, hcc, hfc, rfl⟩ := compile_try_inv hc
     simp at hfc; subst hfc
@@ -669,7 +669,7 @@ theorem sim_succ_ev (code : Code) (P : Prog) (n : Nat) (ihE : SimEv code P n)
           exact this
         cases hrf : run guide P n (.ev fe) σ1 with
         | mk sf σf =>
-          have hF := ihE fe σ1 sf σf cf depth fc f1 rest (o ++ tags d) hfe hrf hfc hcodeF
+          have hF := ihE fe σ1 sf σf cf depth op fc f1 rest (o ++ tags d) hfe hrf hfc hcodeF
           rw [hrf] at h
           have hres : (sig, σ') = (sf, σf) := by
             rw [← h]; cases sf <;> rfl
@@ -720,7 +720,7 @@ whatever the guide-level evaluator does with any fuel `n` — complete normally 
 uncaught error `v` — the machine running the code laid out as `compile_try_expression` lays it out
 ends the same way with exactly the same marker trace, for every sufficient number of steps. -/
 theorem mech_refines_guide (P : Prog) (hm : Frag P.main) (cf : Nat) (c : List Ins)
-    (hc : compile cf 0 P.main = some c) (n : Nat) (sig : Sig) (σ' : St)
+    (hc : compile cf 0 0 P.main = some c) (n : Nat) (sig : Sig) (σ' : St)
     (h : run guide P n (.ev P.main) (initSt P) = (sig, σ')) :
     match sig with
     | .ok _ => ∃ k, ∀ fuel ≥ k, exec [c] fuel = { out := tags σ'.out, result := .done }
@@ -729,7 +729,7 @@ theorem mech_refines_guide (P : Prog) (hm : Frag P.main) (cf : Nat) (c : List In
     | _ => False := by
   let f0 : Frame := { fn := 0 }
   have hcode : CodeAt [c] f0.fn f0.ip c := ⟨[], [], by simp [fnCode, f0], rfl⟩
-  have hs := (sim_all [c] P n).1 P.main (initSt P) sig σ' cf 0 c f0 [] [] hm h hc hcode
+  have hs := (sim_all [c] P n).1 P.main (initSt P) sig σ' cf 0 0 c f0 [] [] hm h hc hcode
   have hinit : mk f0 [] [] = initVM := rfl
   cases sig with
   | ok v =>
